@@ -110,9 +110,9 @@ func PingHit(n *Node, st *State) bool { return urlPartsMatch(n, st) }
 
 // VGenOpts bounds the verifier-tree generator.
 type VGenOpts struct {
-	MaxDepth int  // levels including the verifier leaf
-	MaxWidth int  // group children
-	Scopes   bool // draw scopes (otherwise all absent)
+	MaxDepth int    // levels including the verifier leaf
+	MaxWidth int    // group children
+	Scopes   bool   // draw scopes (otherwise all absent)
 	Top      string // "" random, "group", "filter", "verifier"
 	NoPing   bool
 }
